@@ -182,7 +182,7 @@ class C06(Suite):
     case_ty = "case"
     obs_ty = "obs"
     kf = "kf"
-    kf_ids = {1: "F8b", 2: "F17", 3: "F19", 4: "F18"}
+    kf_ids = {1: "F8b", 2: "F17"}
     corr = ("NQuadsSerializer.serialize/_nq_row, HextuplesSerializer.__init__/_context_str, TrigSerializer.__init__/"
             "preprocess/serialize, TriXSerializer._writeGraph, jsonld Converter.convert, PatchSerializer.serialize/_diff/"
             "_patch_row; NQuadsParser.parseline, TrigSinkParser.graph, TriXHandler, jsonld Parser._key_to_graph, "
